@@ -35,6 +35,13 @@ Next ==
              /\ LET t == Tags({ << e.ok # e.fok, "C16" >>, << e.ok /\ e.fok /\ e.key # e.fkey, "C16" >>, << e.users # e.fusers, "C16" >> })
                 IN IF t = {} THEN TRUE ELSE PrintT(<< "PV", t, sc, l, "probe" >>)
              /\ cnt' = [cnt EXCEPT !.probes = @ + 1] /\ UNCHANGED << sc, npub, lastgood >>
+        [] e.e = "burst" ->
+             \* every document of a burst is good: Reload!Load x docs then Reload!Install x docs (PipelineExact:
+             \* ninst + Len(chan) = Len(published)); the probes that follow are judged against Fresh(last)
+             /\ LET t == Tags({ << ~e.ok, "C16" >>,                               \* a good document was refused
+                                << e.held /\ e.consumed # e.docs, "C16" >> })     \* a published value was dropped / never installed
+                IN IF t = {} THEN TRUE ELSE PrintT(<< "PV", t, sc, l, "burst" >>)
+             /\ UNCHANGED << sc, npub, lastgood, cnt >>
         [] OTHER -> UNCHANGED << sc, npub, lastgood, cnt >>
 Spec == Init /\ [][Next]_<< l, sc, npub, lastgood, cnt >>
 Done == IF l = N + 1 THEN PrintT(<< "CNT", cnt >>) ELSE TRUE
